@@ -1,2 +1,85 @@
-(* C14 — property theorems (placeholder until Proofs/Spectrum.v lands) *)
+(* C14 — Spectrum assignment never double-books a slot and honours what the user fixed.
+   Property theorems only; the proofs are in Proofs/Spectrum*.v, the model in Model/Spectrum.v.
+
+   Vocabulary (defined in Proofs/SpectrumBase.v, Spectrum2-5.v):
+     WFst d st            every OMS bitmap of the network covers the same slot range [d_min, d_max], has a
+                          contiguous index list and guard bands fi = n_min + gb, n_max - gb with gb >= 1
+                          (what build_oms_list produces, C15)
+     rq_ok st rq          the request's OMS ids exist and it needs at least one slot
+     feasible b n m       [n-m, n+m-1] lies inside the guard bands of b and all its cells are FREE
+     accepted_ok ...      see below
+     hist_inv st0 st log  occupancy(st) = occupancy(st0) + exactly the accepted ranges of log,
+                          every accepted slot was FREE initially, no two accepted entries share a slot of an OMS *)
 From Verif Require Import Prelude Model.Spectrum.
+From Verif Require Import Proofs.SpectrumBase Proofs.Spectrum Proofs.Spectrum2 Proofs.Spectrum3 Proofs.Spectrum4 Proofs.Spectrum5.
+From Coq Require Import Permutation Lia.
+Open Scope Z_scope.
+
+(* One request, any state, any policy: a request that is not accepted changes nothing; an accepted one gets
+   ranges that (ao_feas) lie inside the guard bands and were FREE on every OMS of path U reverse path,
+   (ao_disj) are pairwise disjoint, (ao_enough) provide at least the required number of slots,
+   (ao_commit) are recorded as OCCUPIED on exactly those OMS and nothing else changes,
+   (ao_fixed) honour every user-fixed N and M and contain every slot whose M the user fixed,
+   (ao_first) sit at the lowest (first fit) / highest (last fit) feasible centre for a single free slot. *)
+Theorem C14_request : forall d p st rq st' out,
+  WFst d st -> valid_ids st (path_oms rq) -> 0 < rq_required rq ->
+  pth_assign_one p st rq = Ok (st', out) ->
+  match out with
+  | Skipped => st' = st
+  | Blocked _ => st' = st
+  | Accepted ns ms => accepted_ok d p st st' rq ns ms
+  end.
+Proof. exact pth_assign_one_spec. Qed.
+Print Assumptions C14_request.
+
+(* Every history of requests, whatever their outcomes. *)
+Theorem C14_history : forall d p rqs st0 st' outs,
+  WFst d st0 -> Forall (rq_ok st0) rqs -> run p st0 rqs = Ok (st', outs) ->
+  WFst d st' /\ length outs = length rqs /\ hist_inv st0 st' (log_of rqs outs).
+Proof. exact run_spec. Qed.
+Print Assumptions C14_history.
+
+(* readable corollaries of hist_inv *)
+Theorem C14_no_double_booking : forall d p rqs st0 st' outs,
+  WFst d st0 -> Forall (rq_ok st0) rqs -> run p st0 rqs = Ok (st', outs) ->
+  ForallOrdPairs (no_double st0) (log_of rqs outs).
+Proof. intros d p rqs st0 st' outs W H R. exact (hi_nodouble _ _ _ (proj2 (proj2 (run_spec d p rqs st0 st' outs W H R)))). Qed.
+Print Assumptions C14_no_double_booking.
+
+Theorem C14_occupancy_is_union : forall d p rqs st0 st' outs,
+  WFst d st0 -> Forall (rq_ok st0) rqs -> run p st0 rqs = Ok (st', outs) ->
+  forall i o0, 0 <= i -> oms_at st0 i = Some o0 ->
+  exists o, oms_at st' i = Some o /\
+            forall k, cell (bm o) k = if booked (log_of rqs outs) i k then Some SO else cell (bm o0) k.
+Proof. intros d p rqs st0 st' outs W H R. exact (hi_occ _ _ _ (proj2 (proj2 (run_spec d p rqs st0 st' outs W H R)))). Qed.
+Print Assumptions C14_occupancy_is_union.
+
+(* selection never proposes what assignment would refuse: committing an accepted selection cannot raise *)
+Theorem C14_commit_never_raises : forall d r nb sel ids st,
+  WFst d st -> valid_ids st ids ->
+  Forall (fun nm => 0 < snd nm /\ d_min d + d_gb d <= fst nm - snd nm /\ fst nm + snd nm - 1 <= d_max d - d_gb d) sel ->
+  exists st', commit st ids (map fst sel) (map snd sel) r nb = Ok st'.
+Proof. exact commit_defined. Qed.
+Print Assumptions C14_commit_never_raises.
+
+(* ---- non-vacuity: a concrete two-OMS network and a history with accepted, blocked and multi-slot requests *)
+Definition ex_b (c : list slot) : bitmap := mkB (-8) 8 (-6) 6 2 (zrange (-8) 9) c.
+Definition ex_st : state :=
+  [mkO (ex_b (repeat SF 17)) 0 []; mkO (ex_b ([SU; SU] ++ repeat SF 4 ++ [SO; SO] ++ repeat SF 9)) 0 []].
+Definition ex_rqs : list request :=
+  [mkR 1 false 100 25000000000 100 [(None, None)] [0; 1];
+   mkR 2 false 200 25000000000 100 [(Some 4, Some 2); (None, None)] [0];
+   mkR 3 false 100 25000000000 100 [(Some 0, Some 2)] [1; 0];
+   mkR 4 false 100 25000000000 100 [(Some 100, Some 2)] [1]].
+
+Example ex_hyps : WFst (mkD (-8) 8 2) ex_st /\ Forall (rq_ok ex_st) ex_rqs.
+Proof.
+  split.
+  - repeat constructor; cbn; lia.
+  - repeat constructor; cbn; lia.
+Qed.
+
+Example ex_run :
+  exists st', run FirstFit ex_st ex_rqs =
+    Ok (st', [Accepted [-4] [2]; Accepted [4; 0] [2; 2]; Blocked "NO_SPECTRUM"; Blocked "NO_SPECTRUM"]).
+Proof. eexists. vm_compute. reflexivity. Qed.
